@@ -39,6 +39,7 @@ opkinds! {
     AdoptUp = 13, 4;       // (path, h, p, s)
     AdoptWeak = 14, 3;     // (path, p, c)
     AdoptWeakNew = 15, 2;  // (path, p)
+    AdoptWeakFrom = 91, 3; // (path, p, h): p.w = h.w (an existing weak pointer, its target possibly destructed) under an explicit weak barrier
     BarrierOnly = 16, 3;   // (path, p, c)
     Adopt2 = 17, 3;        // (p, c0, c1): backward_barrier(p, None) then two raw stores
     AdoptBy2 = 18, 3;      // (c, p0, p1): forward_barrier(None, c) then raw stores into p0.s[0], p1.s[0]
@@ -46,6 +47,7 @@ opkinds! {
     DropCell = 20, 1;      // (p)
     CellSet = 21, 2;       // (p, c): Gc<Lock>::set / Gc<RefLock>::borrow_mut / Gc<OnceLock>::set
     CellSetNew = 22, 1;    // (p)
+    CellInitNew = 90, 1;   // (p): Gc<OnceLock>::get_or_init on an EMPTY cell with a closure that allocates a fresh node
     CellClear = 23, 1;     // (p)
     CellInit = 24, 2;      // (p, c): Gc<OnceLock>::get_or_init
     CellSetUp = 25, 2;     // (h, p): upgrade h.w then CellSet
